@@ -3,7 +3,7 @@
 From Coq Require Import List Arith Bool ZArith Lia.
 From P9V Require Import Refs.Model Refs.PathFS Refs.RefProofs Refs.RefStep Refs.FenceProofs
   Refs.TreeInv Refs.CoherentTree Refs.CoherentDefs Refs.CoherentFs Refs.CoherentFrame Refs.CoherentStep Refs.CoherentTreeHyp Refs.CoherentUnlink
-  Refs.CoherentRemove Refs.CoherentRename.
+  Refs.CoherentRemove Refs.CoherentPanic Refs.CoherentRename.
 Import ListNotations.
 
 (** the ghost list is extended at the end of each request *)
@@ -145,4 +145,31 @@ Proof.
   assert (H0 : HInv (init_state pfs (pfs_init wga inj)) []).
   { split; [apply init_inv|]. split; [apply init_good | reflexivity]. }
   destruct (hinv_runT ops _ _ TH0 HP H0) as (RI & G & L). eapply good_coherent; eauto.
+Qed.
+
+(** ---- unconditionally: PathFS histories never set the panic flag ---- *)
+Lemma hinv_runU ops : forall s g, TreeHyp ops s -> HInv s g -> s_panic pfs s = false ->
+  HInv (fst (run_g ops s g)) (snd (run_g ops s g)) /\ s_panic pfs (fst (run_g ops s g)) = false.
+Proof.
+  induction ops as [|o ops IH]; intros s g TH0 H P; [split; auto|].
+  cbn [run_g].
+  assert (T0 : TH s) by (apply (TH0 [] (o :: ops)); reflexivity).
+  destruct H as (RI & G & L).
+  destruct (step_np o s [] g RI ltac:(intros x []) T0 G (npi_of_tree s T0) P) as (_ & P1). cbv beta in P1.
+  assert (H1 : HInv (snd (step pfs pfs_step o s)) (extend g (snd (step pfs pfs_step o s)))).
+  { apply hinv_stepT; auto. split; auto. }
+  apply IH; auto.
+  intros pre post E. rewrite <- run_cons. apply (TH0 (o :: pre) post). rewrite E. reflexivity.
+Qed.
+
+Theorem coherent_history_u ops wga inj :
+  TreeHyp ops (init_state pfs (pfs_init wga inj)) ->
+  let r := run_g ops (init_state pfs (pfs_init wga inj)) [] in
+  coherent (fst r) (snd r) /\ s_panic pfs (fst r) = false /\ HInv (fst r) (snd r).
+Proof.
+  intros TH0. cbv zeta.
+  assert (H0 : HInv (init_state pfs (pfs_init wga inj)) []).
+  { split; [apply init_inv|]. split; [apply init_good | reflexivity]. }
+  destruct (hinv_runU ops _ _ TH0 H0 eq_refl) as ((RI & G & L) & P).
+  split; [eapply good_coherent; eauto|]. split; [exact P|]. split; [exact RI|]. split; [exact G | exact L].
 Qed.
